@@ -38,7 +38,7 @@ namespace {
     std::set<int> types, files;
     int64_t method_missing = -1; // value returned by the script-defined method_missing for ints, -1 = not defined
     bool module_active = false;     // the loadable module c15mod is active (its function, type and constant are visible)
-    bool convmodule_active = false; // (known-finding replay only) the module with a conversion
+    bool convmodule_active = false; // the same for c15modconv, the module that also registers a base-class conversion
   };
 
   class C15 : public World {
@@ -120,7 +120,8 @@ namespace {
           break;
         case 27:
         case 28:
-          op["k"] = J("loadmod"); // the host loads the binary extension module (a no-op while it is active)
+          // the host loads a binary extension module (a no-op while it is active): one without, one with a conversion
+          op["k"] = J(plan.chance(500) ? "loadmod" : "loadmodconv");
           break;
         case 17:
           op["k"] = J("local");
@@ -337,11 +338,9 @@ namespace {
             if (model.module_active ? (mf != "=i:62675" || mt != "=false") : (!is_err(mf) || mt != "=true")) {
               bad(oi, "module-differs-from-model", "mod_fn() + mod_const -> " + mf + ", ModThing undefined? " + mt + ", model: module " + (model.module_active ? "active" : "not active"));
             }
-            if (model.convmodule_active) {
-              const std::string cf = eval_show(e, "modconv_fn() + modconv_const");
-              if (cf != "=i:82675") {
-                bad(oi, "module-differs-from-model", "modconv_fn() + modconv_const -> " + cf + ", model: module with a conversion active");
-              }
+            const std::string cf = eval_show(e, "modconv_fn() + modconv_const");
+            if (model.convmodule_active ? cf != "=i:82675" : !is_err(cf)) {
+              bad(oi, "module-differs-from-model", "modconv_fn() + modconv_const -> " + cf + ", model: module with a conversion " + (model.convmodule_active ? "active" : "not active"));
             }
           }
           const int type_events_before = bg_type_events.load();
@@ -463,6 +462,16 @@ namespace {
                 }
                 model.globs[g] = num("v");
               }
+            } else if (k == "global_assign") {
+              // never generated (known finding C15-K2): an existing global gets a new value after a snapshot was taken
+              const int g = int(num("g")) % N_GLOB;
+              if (model.globs.count(g)) {
+                out = eval_show(e, "g" + std::to_string(g) + " = " + std::to_string(num("v")));
+                if (out != "=i:" + std::to_string(num("v"))) {
+                  bad(oi, "definition-rejected", out);
+                }
+                model.globs[g] = num("v");
+              }
             } else if (k == "class") {
               const int c = int(num("c")) % N_CLASS;
               if (!model.classes.count(c)) {
@@ -532,7 +541,7 @@ namespace {
                 cnt[size_t(a)]["fault_throw_mid_eval"] += 1;
               }
             } else if (k == "loadmod" || k == "loadmodconv") {
-              const bool conv = k == "loadmodconv"; // never generated: known finding C15-K1
+              const bool conv = k == "loadmodconv"; // a module that also registers a conversion (conversions are not part of the state)
               try {
                 e.load_module(conv ? "c15modconv" : "c15mod", module_path);
                 out = "loaded";
